@@ -145,8 +145,7 @@ def snapshot(root: str, work: str):
     """{relative path: record} for everything under ``root`` except the non-.git content of ``work``.
 
     Records: ("d", perm, ino) / ("l", target, ino) / ("f", perm, ino, size, mtime_ns, content-or-None) /
-    ("o", mode).  Content is kept for every regular file except those under ``<work>/.git/objects`` (immutable,
-    compressed); nothing is followed.
+    ("o", mode).  Content is kept for every regular file; nothing is followed.
     """
     out = {}
     objects_dir = os.path.join(work, ".git", "objects")
@@ -173,19 +172,17 @@ def snapshot(root: str, work: str):
                 elif stat.S_ISLNK(m):
                     out[rel] = ("l", os.readlink(p), st.st_ino)
                 elif stat.S_ISREG(m):
-                    content = None
-                    if not in_objects:
-                        with open(p, "rb") as f:
-                            content = f.read(1 << 20)
-                    out[rel] = ("f", stat.S_IMODE(m), st.st_ino, st.st_size, st.st_mtime_ns, content)
+                    with open(p, "rb") as f:
+                        content = f.read(1 << 20)
+                    # existing loose objects are legitimately "freshened" (utime) when written again: no mtime there
+                    out[rel] = ("f", stat.S_IMODE(m), st.st_ino, st.st_size, None if in_objects else st.st_mtime_ns, content)
                 else:
                     out[rel] = ("o", m)
     return out
 
 
-def diff_snapshots(before, after):
-    """[(rel, kind, detail)] with kind in created/deleted/modified/chmod/replaced; children of a created or
-    deleted directory are folded into the directory's line."""
+def diff_snapshots(before, after, fold=True):
+    """[(rel, kind, detail)] with kind in created/deleted/modified/chmod/replaced."""
     changes = []
     for rel in sorted(set(before) | set(after)):
         b, a = before.get(rel), after.get(rel)
@@ -215,10 +212,18 @@ def diff_snapshots(before, after):
             changes.append((rel, "modified", f"{_describe(b)} -> {_describe(a)}"))
         else:
             changes.append((rel, "modified", f"{b!r} -> {a!r}"))
-    # fold children of created/deleted directories
+    return fold_changes(changes) if fold else changes
+
+
+def fold(changes):
+    return fold_changes(changes)
+
+
+def fold_changes(changes):
+    """Drop the children of created / deleted directories (for messages)."""
     folded = []
     tops = []
-    for rel, kind, detail in changes:
+    for rel, kind, detail in sorted(changes):
         if kind in ("created", "deleted") and any(rel.startswith(t + "/") and k == kind for t, k in tops):
             continue
         if kind in ("created", "deleted") and detail.startswith("dir"):
@@ -243,11 +248,12 @@ MARKER_RE = re.compile(rb"MK[0-9a-f]{14}")
 
 
 def scan_worktree(work: str):
-    """(markers found in regular files, markers found in symlink targets, number of entries) below ``work``
-    outside ``.git``; nothing is followed."""
-    in_files, in_links = {}, {}
-    n = 0
+    """(set of relative paths (bytes) of every entry below ``work`` outside ``.git``,
+    {symlink path: (target, realpath)}); nothing is followed."""
+    entries = set()
+    links = {}
     stack = [work]
+    plen = len(work) + 1
     while stack:
         d = stack.pop()
         try:
@@ -258,25 +264,41 @@ def scan_worktree(work: str):
             for e in it:
                 if d == work and e.name == ".git":
                     continue
-                n += 1
                 try:
                     st = e.stat(follow_symlinks=False)
                 except FileNotFoundError:
                     continue
+                if e.name == ".git" and d != work and stat.S_ISREG(st.st_mode) and _is_gitdir_file(e.path):
+                    continue  # the "gitdir: ..." placeholder dulwich (like git) writes into a submodule directory
+                entries.add(os.fsencode(e.path[plen:]))
                 if stat.S_ISDIR(st.st_mode):
                     stack.append(e.path)
                 elif stat.S_ISLNK(st.st_mode):
-                    for mk in MARKER_RE.findall(os.fsencode(os.readlink(e.path))):
-                        in_links[mk] = e.path
-                elif stat.S_ISREG(st.st_mode):
                     try:
-                        fd = os.open(e.path, os.O_RDONLY | os.O_NOFOLLOW)
+                        links[e.path] = (os.readlink(e.path), os.path.realpath(e.path))
                     except OSError:
-                        continue
-                    try:
-                        head = os.read(fd, 4096)
-                    finally:
-                        os.close(fd)
-                    for mk in MARKER_RE.findall(head):
-                        in_files[mk] = e.path
-    return in_files, in_links, n
+                        pass
+    return entries, links
+
+
+def _is_gitdir_file(path):
+    try:
+        fd = os.open(path, os.O_RDONLY | os.O_NOFOLLOW)
+    except OSError:
+        return False
+    try:
+        return os.read(fd, 8) == b"gitdir: "
+    finally:
+        os.close(fd)
+
+
+def mechanism(path: str, links) -> str:
+    """How a write to ``path`` (absolute) can have got there: through a work tree symlink that resolves to it
+    (final component), through one that resolves to one of its parent directories (leading component), or by name."""
+    best = "by-name"
+    for _l, (_t, resolved) in links.items():
+        if resolved == path:
+            return "via-final-symlink"
+        if path.startswith(resolved.rstrip("/") + "/"):
+            best = "via-leading-symlink"
+    return best
